@@ -30,6 +30,9 @@ from pysyncobj.transport import Transport          # noqa: E402
 from pysyncobj.node import Node, TCPNode           # noqa: E402
 from pysyncobj.config import SyncObjConf, FAIL_REASON  # noqa: E402
 
+import logging as _logging
+_logging.getLogger('pysyncobj').setLevel(_logging.CRITICAL + 1)   # handler errors are observed, not logged
+
 MOD = (1 << 61) - 1
 RO_BASE = 100          # nids >= RO_BASE are read-only nodes
 
@@ -435,7 +438,7 @@ class Sim(object):
                 return [7, m['request_id'], 0, m['error']]
             return [7, m['request_id'], 1, m['log_idx'], m['log_term']]
         if t == 'next_node_idx':
-            return [8, m['next_node_idx'], 1 if m['reset'] else 0, 1 if m['success'] else 0]
+            return [8, m['term'], m['next_node_idx'], 1 if m['reset'] else 0, 1 if m['success'] else 0]
         return [9]
 
     def node_state(self, n):
